@@ -15,7 +15,7 @@ import (
 
 type Cont func(st *State, results []Val)
 
-const maxPaths = 6000
+const maxPaths = 60000
 
 func (ex *Exec) newFrame(st *State, fn *ssa.Function) *Frame {
 	ex.frameSeq++
@@ -242,14 +242,6 @@ func (ex *Exec) run(st *State, frID int, b *ssa.BasicBlock, idx int, prev *ssa.B
 				ex.jump(st, frID, b, fb, k)
 				return
 			}
-			if ex.knownFalse(st, c) {
-				ex.jump(st, frID, b, fb, k)
-				return
-			}
-			if ex.knownFalse(st, Not(c)) {
-				ex.jump(st, frID, b, tb, k)
-				return
-			}
 			st2 := st.Clone()
 			st.Assume(c)
 			ex.jump(st, frID, b, tb, k)
@@ -336,7 +328,12 @@ func (ex *Exec) jump(st *State, frID int, from, to *ssa.BasicBlock, k Cont) {
 		ex.loopEnter(st, frID, lp, from, k)
 		return
 	}
+	key, dup := ex.memoArrive(st, frID, to, from)
+	if dup {
+		return
+	}
 	ex.run(st, frID, to, 0, from, k)
+	ex.memoDone(key)
 }
 
 // step executes one non-branching instruction.
